@@ -1442,6 +1442,9 @@ class Interp(object):
             if attr in ('upper', 'lower', 'strip') and not args:
                 f = z3.Function(f'str_{attr}', z3.StringSort(), z3.StringSort())
                 return SV('str', f(obj.t))
+            if attr in ('isdigit', 'isdecimal', 'isnumeric', 'isalpha', 'isalnum', 'isspace', 'isascii') and not args:
+                # Unicode character classes: uninterpreted predicates of the text (Python's isdigit is NOT "all of 0-9")
+                return SV('bool', z3.Function(f'str_{attr}', z3.StringSort(), z3.BoolSort())(obj.t))
             if attr == 'replace' and len(args) == 2 and not is_sym(args[0]) and not is_sym(args[1]):
                 f = z3.Function(f'str_replace_{abs(hash((args[0], args[1]))) % 10**8}', z3.StringSort(), z3.StringSort())
                 return SV('str', f(obj.t))
